@@ -54,8 +54,17 @@ class Tagger:
         return [[self.tag(it), [[k, v] for k, v in it.items()]] for it in lod]
 
 
+def model_value(v):
+    """values as the model sees them: Python's == and hash identify 2, 2.0 and (for 1 / 0) True / False"""
+    if isinstance(v, bool):
+        return int(v)
+    if isinstance(v, float) and v == int(v):
+        return int(v)
+    return v
+
+
 def to_model_items(state):
-    return [{"t": t, "kv": kv} for t, kv in state]
+    return [{"t": t, "kv": [[k, model_value(v)] for k, v in kv]} for t, kv in state]
 
 
 def from_model_items(js):
